@@ -191,14 +191,15 @@ def run(repo: Repo) -> Result:
             res.add("C08-READ", "liquid.environment.Environment", f"{l}:never-read", f"{l} is never enforced anywhere", env.file, env.node.lineno)
     # none-tests must select the unlimited buffer, guard tests must exist per limit
     # ---- C08-WRITE -----------------------------------------------------------
-    w = repo.own_method("liquid.output.LimitedStringIO", "write")
+    # symbolic paths of LimitedStringIO.write (shared with C07-COUNT): OutputStreamLimitError is
+    # raised exactly under `counted size > limit`, and nothing else is raised
+    from .c07 import limited_write_paths
+
+    w, _sp, wpaths = limited_write_paths(repo)
     res.ob(w.qual)
-    ok = False
-    for st in ast.walk(w.node):
-        if isinstance(st, ast.If) and isinstance(st.test, ast.Compare) and len(st.test.ops) == 1 and isinstance(st.test.ops[0], ast.Gt):
-            if attr_chain(st.test.left) == ["self", "size"] and attr_chain(st.test.comparators[0]) == ["self", "limit"]:
-                if _raises_limit_error(H, st.body) and not st.orelse:
-                    ok = True
+    raises = [p_ for p_ in wpaths if p_["kind"] == "raise"]
+    ok = bool(raises) and all(p_.get("exc") == "OutputStreamLimitError" and "N+S0>L" in p_["conds"] for p_ in raises)
+    ok = ok and not any(p_["kind"] in ("write", "return") and "N+S0>L" in p_["conds"] for p_ in wpaths)
     if not ok:
         res.add("C08-WRITE", w.qual, "size>limit", "LimitedStringIO.write must raise OutputStreamLimitError iff self.size > self.limit", w.file, w.line)
 
